@@ -274,3 +274,39 @@ def check_c14(tier):
 
 def check_c15(tier):
     return _pagination("C15", tier)
+
+
+def check_c20(tier):
+    t0 = time.time()
+    vlib.build_harness()
+    findings = vlib.Findings("C20")
+    cfgname = "MC_WsHandshake_run.cfg"
+    cfg = "\n".join(["SPECIFICATION Spec", "CONSTANT Full = %s" % ("FALSE" if tier == "quick" else "TRUE"),
+                     "INVARIANT SpellingFree", "INVARIANT OnlyGoodUpgrades", "INVARIANT EmitVec",
+                     "CHECK_DEADLOCK FALSE", ""])
+    res = vlib.run_tlc("C20-ws", "MC_WsHandshake.tla", cfgname, workers=1, timeout=1200,
+                       extra_files={cfgname: cfg}, coverage=False, heap="8g")
+    vlib.tlc_ok(res, "ws")
+    if res.violated:
+        findings.add({"engine": "ws-model", "kind": "invariant:" + str(res.violated), "shape": "other"},
+                     {"tlc_trace": res.trace[-3000:]})
+    results = vlib.run_replay("replay_ws", res.vectors_path, shards=4)
+    nm = _replay_findings(findings, results, "C20", "ws",
+                          "the real channel endpoint disagrees with WsHandshake.tla on this handshake")
+    good = sum(1 for r in results if json.loads(r["_vector"])["out"]["upgraded"])
+    samples = [json.loads(r["_vector"]) for r in results[len(results) // 2: len(results) // 2 + 2]]
+    rc = findings.report()
+    vlib.write_evidence(
+        "C20", tier, "model_checking",
+        {"states": res.distinct, "transitions": res.generated, "traces_validated_against_impl": len(results),
+         "samples": samples, "evaluations": len(results), "distinct_nontrivial": len(results),
+         "handshakes_expected_to_upgrade": good, "replay_mismatches": nm, "exhaustive": True,
+         "rule": "TLC enumerates every request of the product (Connection and Upgrade as absent / one line of one or two "
+                 "elements / two lines, with case variants and foreign tokens; five separator spellings; version absent/13/"
+                 "other; key absent/present) with the RFC 9110 list meaning as oracle; each is sent over raw TCP to a live "
+                 "#[channel] endpoint: 101 + Sec-WebSocket-Accept (checked against the harness's own SHA-1) + byte-exact "
+                 "echo of random payloads, or a 4xx and no echo"},
+        ["SHA-1/base64 of the accept digest are harness code (the specification treats the digest as uninterpreted)",
+         "the channel handler is a raw byte echo, so 'bytes flow unmodified' is checked below the WebSocket framing layer"],
+        time.time() - t0, len(findings.violations))
+    return rc
